@@ -105,13 +105,59 @@ def showClassify (s : Schema) : String :=
 
 /-! ### generated declarations (c14.gen) -/
 
-/-- stand-in for gen/utils.go `goify` where only *equality* of Go names matters: ASCII lower case
-without `_` and `.`. It agrees with `goify` on equality for the names the harness generates (a
-constructor collides with its type only when it is the type's name with a lower-case first letter);
-the agreement is sampled by the correspondence, not proved. -/
+/-- field and argument names are compared in ASCII lower case without `_` and `.` (the harness reads the
+generated identifiers back the same way) -/
 def normName (s : Str) : Str :=
   (s.filter fun c => c ≠ '_' ∧ c ≠ '.').map fun c =>
     if 'A' ≤ c ∧ c ≤ 'Z' then Char.ofNat (c.toNat + 32) else c
+
+/-! #### `goify` (gen/utils.go over strcase.ToDelimited v0.1.2), for the `Obj` suffix decision
+
+The suffix is written exactly when `goify name = goify type`. `normName` above agrees with that only for
+constructors that are their type's name with a lower-case first letter; for `webpage` / `WebPage` (equal
+under case folding, two Go identifiers) and `web_page` / `WebPage` (the same identifier, not equal under
+case folding) the words matter. Port of the third-party splitting rule, statement by statement; like
+`goify` itself it is not part of the verified model — its agreement with the real generator is what the
+correspondence samples. -/
+
+def isUp (c : Char) : Bool := 'A' ≤ c ∧ c ≤ 'Z'
+def isLo (c : Char) : Bool := 'a' ≤ c ∧ c ≤ 'z'
+def isNum (c : Char) : Bool := '0' ≤ c ∧ c ≤ '9'
+def toLo (c : Char) : Char := if isUp c then Char.ofNat (c.toNat + 32) else c
+def toUp (c : Char) : Char := if isLo c then Char.ofNat (c.toNat - 32) else c
+
+/-- `strcase.ToDelimited(s, '|')` followed by `strings.ReplaceAll(_, ".", "|")`; `prev`: the byte before -/
+def delimit : Option Char → Str → Str
+  | _, [] => []
+  | prev, v :: rest =>
+    let lv := toLo v
+    let plain : Str := if v = ' ' ∨ v = '_' ∨ v = '-' ∨ v = '.' then ['|'] else [lv]
+    match rest with
+    | [] => plain
+    | next :: _ =>
+      if (isUp v ∧ (isLo next ∨ isNum next)) ∨ (isLo v ∧ (isUp next ∨ isNum next)) ∨ (isNum v ∧ (isUp next ∨ isLo next)) then
+        let before : Str := if isUp v && isLo next && (match prev with | some p => isUp p | none => false) then ['|'] else []
+        let after : Str := if isLo v ∨ isNum v ∨ isNum next then ['|'] else []
+        before ++ [lv] ++ after ++ delimit (some v) rest
+      else plain ++ delimit (some v) rest
+
+def splitBar : Str → List Str
+  | [] => [[]]
+  | c :: r =>
+    match splitBar r with
+    | [] => [[]]
+    | w :: ws => if c = '|' then [] :: w :: ws else (c :: w) :: ws
+
+def capitalizePatterns : List Str := ["id".toList, "api".toList, "url".toList, "p2p".toList, "sha".toList, "srp".toList]
+
+/-- `goify(name, true)`; an empty word (where Go indexes `itemRunes[0]` and panics) is dropped — the
+harness generates no such names -/
+def goName (s : Str) : Str :=
+  ((splitBar (delimit none s)).map fun w =>
+    if capitalizePatterns.contains w then w.map toUp
+    else match w with
+      | [] => []
+      | c :: r => toUp c :: r).flatten
 
 def showGoType : GoType → String
   | .prim n => n
@@ -147,7 +193,7 @@ def insertByCrc (x : Nat × String) : List (Nat × String) → List (Nat × Stri
   | y :: ys => if x.1 < y.1 then x :: y :: ys else y :: insertByCrc x ys
 
 def showEmit (s : Schema) : String :=
-  match emit normName s with
+  match emit goName s with
   | none => "gen=fail:panic"
   | some (ds, ms) =>
     let entries := ds.map (fun d => (d.crc, showDecl d)) ++
